@@ -105,7 +105,7 @@ def signatures(log, final):
     for k, d in enumerate(log):
         if d["t"] == "c" and d["k"] == "W" and d["v"] == "rs" and d["x"] == "STARTING":
             nxt = next((e for e in log[k + 1:] if e["t"] == "w" and e["k"] == "ev" and e["v"] in ("clear", "woke")), None)
-            prev_run = any(e["t"] == "w" and e["k"] == "W" and e["v"] == "runflag" for e in log[:k])
+            prev_run = any(e["t"] == "w" and e["k"] == "W" and e["v"] == "rs" and e["x"] == "STARTED" for e in log[:k])
             # the window: the run loop has already decided to leave (its last test of run_state failed, or it wrote STOPPED,
             # or it wrote STOPPING at the natural end, i.e. right after ENDING); a start admitted while a handler is
             # still running is NOT in the window: the pinned loop sees STARTING and keeps running
@@ -140,7 +140,7 @@ def observables(ctx, sc, label, case):
                 nexec += 1
         if nexec:
             probs.append(("stop_from_listener_ignored", f"a START_EVENT listener's stop() returned normally but the run thread went on to execute {nexec} event(s) in that segment"))
-    segments = sum(1 for d in SCHED.log if d["t"] == "w" and d["k"] == "W" and d["v"] == "runflag" and d["x"] in (True, "True"))
+    segments = sum(1 for d in SCHED.log if d["t"] == "w" and d["k"] == "W" and d["v"] == "rs" and d["x"] == "STARTED")     # one STARTED write of the run thread per segment
     if st["rs"] in ("STARTING", "STARTED", "STOPPING"):
         probs.append(("stuck_state", f"at quiescence run_state = {st['rs']} (replication_state = {st['rep']}); commands returned {st['results']}"))
     if segments > starts_ok:
